@@ -1,7 +1,7 @@
 /-
   Sipsp.Proofs.SigCompose — the message signature after ANY way of parsing (composition lemmas for C04 and C19).
 
-  All statements are about the model (`parseSIPMsg`, `getMsgSig`, `PSIPMsg.init`, `PSIPMsg.reset`); no size bound other
+  All statements are about the model (`parseSIPMsg`, `getMsgSigCore`, `PSIPMsg.init`, `PSIPMsg.reset`); no size bound other
   than the documented 65,535-byte limit where the re-used theorems need it.
 
   (1) [C04] GetMsgSig never panics after a successful parse, whatever happened to the object before.
@@ -502,7 +502,7 @@ theorem sc_resumeRun (flags : Nat) (o : Nat) (m : PSIPMsg) (l : List Buf) (H : S
 /-- `getMsgSig_after_parse` without its hypothesis on the unused header slots: it follows from the invariant -/
 theorem sc_getMsgSig_safe (b : Buf) (o : Nat) (m : PSIPMsg) (flags : Nat) (hfit : b.size ≤ 65535)
     (hI : ScMsg m) (hok : msgOK2 b o m) (H : MsgSafe b o m) {o' : Nat} {m' : PSIPMsg}
-    (hr : parseSIPMsg b o m flags = (o', .ok, m')) : (getMsgSig m' b).2.2 = false := by
+    (hr : parseSIPMsg b o m flags = (o', .ok, m')) : (getMsgSigCore m' b).2.2 = false := by
   have hD := (sc_parseSIPMsg b o m flags hI).2
   rw [hr] at hD
   have hD' : ScDone m'.hl := hD rfl
@@ -515,18 +515,18 @@ theorem sc_getMsgSig_safe (b : Buf) (o : Nat) (m : PSIPMsg) (flags : Nat) (hfit 
 theorem sc_getMsgSig_safe_init (b : Buf) (o : Nat) (ho : o ≤ b.size) (m0 : PSIPMsg) (len kh kc : Nat)
     (hdrs cts : Option Unit) (flags : Nat) (hfit : b.size ≤ 65535) {o' : Nat} {m' : PSIPMsg}
     (hr : parseSIPMsg b o (m0.init len (hdrs.map fun _ => Array.replicate kh {})
-      (cts.map fun _ => Array.replicate kc {})) flags = (o', .ok, m')) : (getMsgSig m' b).2.2 = false :=
+      (cts.map fun _ => Array.replicate kc {})) flags = (o', .ok, m')) : (getMsgSigCore m' b).2.2 = false :=
   sc_getMsgSig_safe b o _ flags hfit (ScMsg_init m0 len kh kc hdrs cts) (msgOK2_init b o ho m0 len kh kc hdrs cts)
     (MsgSafe_init b o ho m0 len kh kc hdrs cts) hr
 
 /-- the buffer may have grown after the parse: only `msg.Buf` = its first `bufLen` bytes is read -/
-theorem sc_getMsgSig_ext (m : PSIPMsg) (b s : Buf) (h : m.bufLen ≤ b.size) : getMsgSig m (b ++ s) = getMsgSig m b := by
+theorem sc_getMsgSig_ext (m : PSIPMsg) (b s : Buf) (h : m.bufLen ≤ b.size) : getMsgSigCore m (b ++ s) = getMsgSigCore m b := by
   have he : (b ++ s).extract 0 m.bufLen = b.extract 0 m.bufLen := by
     rw [Array.extract_append]
     have : m.bufLen - b.size = 0 := by omega
     rw [this]
     simp
-  unfold getMsgSig
+  unfold getMsgSigCore
   rw [he]
 
 /-- **every chunk schedule from Init that ends with OK**: the result is what one call on one of the buffers (the one
@@ -539,7 +539,7 @@ theorem sc_getMsgSig_safe_schedule (flags : Nat) (o : Nat) (m0 : PSIPMsg) (len k
       (m0.init len (hdrs.map fun _ => Array.replicate kh {}) (cts.map fun _ => Array.replicate kc {})) l = (o', .ok, m')) :
     ∃ b ∈ l, parseSIPMsg b o (m0.init len (hdrs.map fun _ => Array.replicate kh {})
         (cts.map fun _ => Array.replicate kc {})) flags = (o', .ok, m') ∧ m'.bufLen ≤ b.size ∧
-      ∀ s, (getMsgSig m' (b ++ s)).2.2 = false := by
+      ∀ s, (getMsgSigCore m' (b ++ s)).2.2 = false := by
   obtain ⟨b, hb, h⟩ := flo_schedule_init flags o m0 len kh kc hdrs cts l hg hfit hne ho hr
   have hsafe := sc_getMsgSig_safe_init b o (ho b hb) m0 len kh kc hdrs cts flags (hfit b hb) h
   obtain ⟨hh, _, _, hle, hL⟩ := parseSIPMsg_layout b o _ flags (hfit b hb)
@@ -559,9 +559,9 @@ theorem sc_sig_chunking (flags : Nat) (o : Nat) (m0 : PSIPMsg) (len kh kc : Nat)
         (cts.map fun _ => Array.replicate kc {})) l =
       oneShotRun (C01.msgP flags) o (m0.init len (hdrs.map fun _ => Array.replicate kh {})
         (cts.map fun _ => Array.replicate kc {})) l ∧
-    ∀ b, getMsgSig (resumeRun (C01.msgP flags) o (m0.init len (hdrs.map fun _ => Array.replicate kh {})
+    ∀ b, getMsgSigCore (resumeRun (C01.msgP flags) o (m0.init len (hdrs.map fun _ => Array.replicate kh {})
         (cts.map fun _ => Array.replicate kc {})) l).2.2 b =
-      getMsgSig (oneShotRun (C01.msgP flags) o (m0.init len (hdrs.map fun _ => Array.replicate kh {})
+      getMsgSigCore (oneShotRun (C01.msgP flags) o (m0.init len (hdrs.map fun _ => Array.replicate kh {})
         (cts.map fun _ => Array.replicate kc {})) l).2.2 b := by
   have hrr := C01.schedule_msg_init flags o m0 len kh kc hdrs cts l hg hfit ho
   simp only at hrr
@@ -602,9 +602,9 @@ theorem sc_sig_chunking_whole (flags : Nat) (o : Nat) (m0 : PSIPMsg) (len kh kc 
         (cts.map fun _ => Array.replicate kc {})) l =
       parseSIPMsg (l.getLast hne) o (m0.init len (hdrs.map fun _ => Array.replicate kh {})
         (cts.map fun _ => Array.replicate kc {})) flags ∧
-    ∀ b, getMsgSig (resumeRun (C01.msgP flags) o (m0.init len (hdrs.map fun _ => Array.replicate kh {})
+    ∀ b, getMsgSigCore (resumeRun (C01.msgP flags) o (m0.init len (hdrs.map fun _ => Array.replicate kh {})
         (cts.map fun _ => Array.replicate kc {})) l).2.2 b =
-      getMsgSig (parseSIPMsg (l.getLast hne) o (m0.init len (hdrs.map fun _ => Array.replicate kh {})
+      getMsgSigCore (parseSIPMsg (l.getLast hne) o (m0.init len (hdrs.map fun _ => Array.replicate kh {})
         (cts.map fun _ => Array.replicate kc {})) flags).2.2 b := by
   have hone := sc_oneShotRun_last (C01.msgP flags) o (m0.init len (hdrs.map fun _ => Array.replicate kh {})
     (cts.map fun _ => Array.replicate kc {})) l hne hpre
@@ -626,9 +626,9 @@ theorem sc_sig_two_schedules (flags : Nat) (o : Nat) (m0 m0' : PSIPMsg) (len kh 
       (cts.map fun _ => Array.replicate kc {})) flags).2.1 = .moreBytes)
     (hok : (parseSIPMsg (l1.getLast hne1) o (m0.init len (hdrs.map fun _ => Array.replicate kh {})
       (cts.map fun _ => Array.replicate kc {})) flags).2.1 = .ok) (b : Buf) :
-    getMsgSig (resumeRun (C01.msgP flags) o (m0.init len (hdrs.map fun _ => Array.replicate kh {})
+    getMsgSigCore (resumeRun (C01.msgP flags) o (m0.init len (hdrs.map fun _ => Array.replicate kh {})
         (cts.map fun _ => Array.replicate kc {})) l1).2.2 b =
-      getMsgSig (resumeRun (C01.msgP flags) o (m0'.init len (hdrs.map fun _ => Array.replicate kh {})
+      getMsgSigCore (resumeRun (C01.msgP flags) o (m0'.init len (hdrs.map fun _ => Array.replicate kh {})
         (cts.map fun _ => Array.replicate kc {})) l2).2.2 b := by
   have hinit : m0'.init len (hdrs.map fun _ => Array.replicate kh {}) (cts.map fun _ => Array.replicate kc {}) =
       m0.init len (hdrs.map fun _ => Array.replicate kh {}) (cts.map fun _ => Array.replicate kc {}) := by
@@ -752,7 +752,7 @@ theorem sc_msgDone_fields {m1 m2 : PSIPMsg} (hD : MsgDone m1 m2) :
     flag. `MsgDone` is the relation the capacity theorems (C13) establish between the results of two runs with
     different capacities; `ScDone` holds after every successful parse (`sc_parseSIPMsg`, `sc_resumeRun`). -/
 theorem sc_sig_fit (m1 m2 : PSIPMsg) (b : Buf) (hD : MsgDone m1 m2) (h1 : ScDone m1.hl) (h2 : ScDone m2.hl)
-    (hn1 : m1.hl.n ≤ m1.hl.hdrs.size) (hn2 : m2.hl.n ≤ m2.hl.hdrs.size) : getMsgSig m1 b = getMsgSig m2 b := by
+    (hn1 : m1.hl.n ≤ m1.hl.hdrs.size) (hn2 : m2.hl.n ≤ m2.hl.hdrs.size) : getMsgSigCore m1 b = getMsgSigCore m2 b := by
   obtain ⟨ereq, elen, ecid, efrom, emeth, hH⟩ := sc_msgDone_fields hD
   cases hr : m1.request
   · rw [getMsgSig_reply m1 b hr, getMsgSig_reply m2 b (ereq.trans hr)]
@@ -779,7 +779,7 @@ theorem sc_sig_fit (m1 m2 : PSIPMsg) (b : Buf) (hD : MsgDone m1 m2) (h1 : ScDone
     verdict, panic flag — as with the larger array -/
 theorem sc_sig_small (m1 m2 : PSIPMsg) (b : Buf) (hD : MsgDone m1 m2) (hsmall : m1.hl.hdrs.size < m1.hl.n)
     (hle : m1.hl.hdrs.size ≤ m2.hl.hdrs.size) :
-    (getMsgSig m1 b).2.1 = .trunc ∨ getMsgSig m1 b = getMsgSig m2 b := by
+    (getMsgSigCore m1 b).2.1 = .trunc ∨ getMsgSigCore m1 b = getMsgSigCore m2 b := by
   obtain ⟨ereq, elen, ecid, efrom, emeth, hH⟩ := sc_msgDone_fields hD
   cases hr : m1.request
   · right; rw [getMsgSig_reply m1 b hr, getMsgSig_reply m2 b (ereq.trans hr)]
@@ -910,9 +910,9 @@ theorem sc_sig_capacity (flags : Nat) (o : Nat) (m0 m0' : PSIPMsg) (len kh1 kc1 
     (hok : r1.2.1 = .ok) :
     r2.1 = r1.1 ∧ r2.2.1 = .ok ∧ r2.2.2.hl.n = r1.2.2.hl.n ∧
     r1.2.2.hl.hdrs.size = scCap kh1 hd1 ∧ r2.2.2.hl.hdrs.size = scCap kh2 hd2 ∧
-    (r1.2.2.hl.n ≤ scCap kh1 hd1 → r1.2.2.hl.n ≤ scCap kh2 hd2 → ∀ b, getMsgSig r1.2.2 b = getMsgSig r2.2.2 b) ∧
+    (r1.2.2.hl.n ≤ scCap kh1 hd1 → r1.2.2.hl.n ≤ scCap kh2 hd2 → ∀ b, getMsgSigCore r1.2.2 b = getMsgSigCore r2.2.2 b) ∧
     (scCap kh1 hd1 < r1.2.2.hl.n → scCap kh1 hd1 ≤ scCap kh2 hd2 →
-      ∀ b, (getMsgSig r1.2.2 b).2.1 = .trunc ∨ getMsgSig r1.2.2 b = getMsgSig r2.2.2 b) := by
+      ∀ b, (getMsgSigCore r1.2.2 b).2.1 = .trunc ∨ getMsgSigCore r1.2.2 b = getMsgSigCore r2.2.2 b) := by
   have hout : MsgOut r1 r2 := by
     rw [hr1, hr2]
     exact Sipsp.capacity_schedule flags o _ _ l hg hfit (MsgRel_init m0 m0' len kh1 kc1 kh2 kc2 hd1 ct1 hd2 ct2)
@@ -1261,7 +1261,7 @@ theorem ScReach.inv {m : PSIPMsg} (h : ScReach m) : ScMsg m ∧ ScCt m := by
     ParseSIPMsg is followed by a panic-free GetMsgSig -/
 theorem sc_getMsgSig_safe_history (b : Buf) (o : Nat) (m : PSIPMsg) (flags : Nat) (hfit : b.size ≤ 65535)
     (hR : ScReach m) (hok : msgOK2 b o m) (H : MsgSafe b o m) {o' : Nat} {m' : PSIPMsg}
-    (hr : parseSIPMsg b o m flags = (o', .ok, m')) : (getMsgSig m' b).2.2 = false :=
+    (hr : parseSIPMsg b o m flags = (o', .ok, m')) : (getMsgSigCore m' b).2.2 = false :=
   sc_getMsgSig_safe b o m flags hfit hR.inv.1 hok H hr
 
 /-- **Reset after any history gives an Init object** (so every theorem stated "from Init" applies after Reset) … -/
@@ -1279,7 +1279,7 @@ theorem sc_reset_legit {m : PSIPMsg} (hR : ScReach m) (b : Buf) (o : Nat) (ho : 
 /-- **any history, then Reset, then one successful call**: GetMsgSig does not panic (no legitimacy hypothesis left) -/
 theorem sc_getMsgSig_safe_reset {m : PSIPMsg} (hR : ScReach m) (b : Buf) (o : Nat) (ho : o ≤ b.size) (flags : Nat)
     (hfit : b.size ≤ 65535) {o' : Nat} {m' : PSIPMsg} (hr : parseSIPMsg b o m.reset flags = (o', .ok, m')) :
-    (getMsgSig m' b).2.2 = false :=
+    (getMsgSigCore m' b).2.2 = false :=
   sc_getMsgSig_safe b o m.reset flags hfit (ScMsg_reset m) (sc_reset_legit hR b o ho).1 (sc_reset_legit hR b o ho).2 hr
 
 /-- **any history, then Reset, then any chunk schedule that ends with OK**: as `sc_getMsgSig_safe_schedule` -/
@@ -1287,7 +1287,7 @@ theorem sc_getMsgSig_safe_reset_schedule {m : PSIPMsg} (hR : ScReach m) (flags :
     (l : List Buf) (hg : Growing l) (hfit : ∀ x ∈ l, x.size ≤ 65535) (hne : l ≠ []) (ho : ∀ b ∈ l, o ≤ b.size)
     {o' : Nat} {m' : PSIPMsg} (hr : resumeRun (C01.msgP flags) o m.reset l = (o', .ok, m')) :
     ∃ b ∈ l, parseSIPMsg b o m.reset flags = (o', .ok, m') ∧ m'.bufLen ≤ b.size ∧
-      ∀ s, (getMsgSig m' (b ++ s)).2.2 = false := by
+      ∀ s, (getMsgSigCore m' (b ++ s)).2.2 = false := by
   rw [sc_reset_after_history hR] at hr ⊢
   exact sc_getMsgSig_safe_schedule flags o _ _ _ _ _ _ l hg hfit hne ho hr
 
@@ -1310,7 +1310,7 @@ theorem scTest_fit : scTestMsg.size ≤ 65535 := by decide +kernel
 theorem scTest_ok : (parseSIPMsg scTestMsg 0 (scTestInit 12) 0).2.1 = .ok := by decide +kernel
 
 /-- … and its use -/
-example : (getMsgSig (parseSIPMsg scTestMsg 0 (scTestInit 12) 0).2.2 scTestMsg).2.2 = false := by
+example : (getMsgSigCore (parseSIPMsg scTestMsg 0 (scTestInit 12) 0).2.2 scTestMsg).2.2 = false := by
   have he := scTest_ok
   generalize hp : parseSIPMsg scTestMsg 0 (scTestInit 12) 0 = r at he ⊢
   obtain ⟨o', e, m'⟩ := r
@@ -1353,17 +1353,17 @@ example : resumeRun (C01.msgP 0) 0 (scTestInit 12) scTestCuts = parseSIPMsg scTe
   exact h
 
 /-- test (2): the signature of the chunked parse, computed -/
-example : getMsgSig (resumeRun (C01.msgP 0) 0 (scTestInit 12) scTestCuts).2.2 scTestMsg =
+example : getMsgSigCore (resumeRun (C01.msgP 0) 0 (scTestInit 12) scTestCuts).2.2 scTestMsg =
     ({ method := 2, cidSLen := 1, cidSig := 10, fromSig := 64, viaBSig := 80, hdrSig := [6, 11, 5, 0, 2] },
      .ok, false) := by decide +kernel
 
 /-- test (3a): capacities 8 (exactly the header count) and 12: the same result -/
 example : (parseSIPMsg scTestMsg 0 (scTestInit 8) 0).2.2.hl.n = 8 ∧
-    getMsgSig (parseSIPMsg scTestMsg 0 (scTestInit 8) 0).2.2 scTestMsg =
-      getMsgSig (parseSIPMsg scTestMsg 0 (scTestInit 12) 0).2.2 scTestMsg := by decide +kernel
+    getMsgSigCore (parseSIPMsg scTestMsg 0 (scTestInit 8) 0).2.2 scTestMsg =
+      getMsgSigCore (parseSIPMsg scTestMsg 0 (scTestInit 12) 0).2.2 scTestMsg := by decide +kernel
 
 /-- test (3b): capacity 3: truncated indication, with the entries of the stored part -/
-example : getMsgSig (parseSIPMsg scTestMsg 0 (scTestInit 3) 0).2.2 scTestMsg =
+example : getMsgSigCore (parseSIPMsg scTestMsg 0 (scTestInit 3) 0).2.2 scTestMsg =
     ({ method := 2, cidSLen := 1, cidSig := 10, fromSig := 64, viaBSig := 80, hdrSig := [6, 11] }, .trunc, false) := by
   decide +kernel
 
@@ -1378,9 +1378,9 @@ def scTestMsg2 : Buf := "OPTIONS sip:a@b SIP/2.0\r\nVia: SIP/2.0/UDP h\r\nFrom: 
 /-- test (3c): a too small array (5 slots for 7 headers) that holds every flagged fingerprinted header before any other
     one: no truncated indication, the same result as with a large array (the "or else the same" branch of (3b)) -/
 example : (parseSIPMsg scTestMsg2 0 (scTestInit 5) 0).2.2.hl.n = 7 ∧
-    (getMsgSig (parseSIPMsg scTestMsg2 0 (scTestInit 5) 0).2.2 scTestMsg2).2.1 = .ok ∧
-    getMsgSig (parseSIPMsg scTestMsg2 0 (scTestInit 5) 0).2.2 scTestMsg2 =
-      getMsgSig (parseSIPMsg scTestMsg2 0 (scTestInit 12) 0).2.2 scTestMsg2 := by decide +kernel
+    (getMsgSigCore (parseSIPMsg scTestMsg2 0 (scTestInit 5) 0).2.2 scTestMsg2).2.1 = .ok ∧
+    getMsgSigCore (parseSIPMsg scTestMsg2 0 (scTestInit 5) 0).2.2 scTestMsg2 =
+      getMsgSigCore (parseSIPMsg scTestMsg2 0 (scTestInit 12) 0).2.2 scTestMsg2 := by decide +kernel
 
 /-- test (1g): an object that failed inside a header line, was used again in the error state (other buffer, offset,
     flags), then Reset: reachable; the parse of the test message on it succeeds, so the hypotheses of
@@ -1395,7 +1395,7 @@ theorem scTestUsed_reach : ScReach scTestUsed :=
 theorem scTestUsed_ok : (parseSIPMsg scTestMsg 0 scTestUsed.reset 0).2.1 = .ok ∧ scTestUsed.state = .err := by
   decide +kernel
 
-example : (getMsgSig (parseSIPMsg scTestMsg 0 scTestUsed.reset 0).2.2 scTestMsg).2.2 = false := by
+example : (getMsgSigCore (parseSIPMsg scTestMsg 0 scTestUsed.reset 0).2.2 scTestMsg).2.2 = false := by
   have he := scTestUsed_ok.1
   generalize hp : parseSIPMsg scTestMsg 0 scTestUsed.reset 0 = r at he ⊢
   obtain ⟨o', e, m'⟩ := r
